@@ -103,6 +103,12 @@ class BlockChain(object):
         longest_chain = self._longest_local_block_chain()
         if index < 1:
             return
+        if index > len(longest_chain):
+            # refuse before anything is changed
+            raise IndexError(
+                "can't lock to index %d: chain has %d elements"
+                % (index + old_length, len(longest_chain) + old_length)
+            )
         excluded: set[Any] = set()
         the_hash: Any = None
         for idx in range(index):
